@@ -107,6 +107,17 @@ def handle1 : List String → String
     match pb? authKey, pb? msgKey, pb? ct with
     | some ak, some mk, some c => showOutcome (decryptMsg H aesD c ak mk)
     | _, _, _ => "bad-op"
+  | ["c05.mkey", msg] =>
+    match pb? msg with
+    | some m => showOutcome (.ok (messageKey H m))
+    | none => "bad-op"
+  | ["c05.kdf", msgKey, authKey, d] =>
+    match pb? msgKey, pb? authKey with
+    | some mk, some ak =>
+      if d == "0" then showKV (generateAESIGE H mk ak false)
+      else if d == "1" then showKV (generateAESIGE H mk ak true)
+      else "bad-op"
+    | _, _ => "bad-op"
   | ["c05.tkeys", n, s] =>
     match pb? n, pb? s with
     | some nb, some sb => showKV (.ok (generateTempKeys H (fromBE nb) (fromBE sb)))
@@ -183,6 +194,12 @@ def handle (toks : List String) : String :=
   | "c05.seq" :: _ =>
     match splitBars toks with
     | ["c05.seq"] :: m :: ms => " | ".intercalate ((m :: ms).map member)
+    | _ => "bad-op"
+  | "c05.seqip" :: _ =>
+    -- the members one after another in the SAME caller memory refilled in place (the harness seeds the
+    -- padding source per member, so `c05.tenc` is an ordinary operation here): calls on their own
+    match splitBars toks with
+    | ["c05.seqip"] :: m :: ms => " | ".intercalate ((m :: ms).map handle1)
     | _ => "bad-op"
   | _ => handle1 toks
 
